@@ -649,6 +649,25 @@ func runCheck(repo, mode string, args []string) int {
 			e.solveOne(o, header, dir, quickT*2, raceT*3)
 		}
 	}
+	// thorough: every discharged obligation is put to a solver of the other family as well (z3 <-> cvc5).  `unsat` twice
+	// is agreement, unknown/timeout is inconclusive; `sat` from the second solver is re-examined by the first one alone and,
+	// if the first one still says unsat, reported as a solver disagreement (engine error: the proof is not trusted).
+	if tier == "thorough" {
+		jobs = nil
+		for _, o := range selected {
+			o := o
+			if o.ExpectSat || o.Status != "unsat" || o.Solver == "syntactic" {
+				continue
+			}
+			jobs = append(jobs, func() { e.crossCheck(o, header, dir) })
+		}
+		parallel(16, jobs)
+		for _, o := range selected {
+			if o.Cross == "sat" {
+				engineErrs = append(engineErrs, fmt.Sprintf("%s: solver disagreement: %s says unsat, the other family says sat", o.Name, o.Solver))
+			}
+		}
+	}
 	return e.report(prop, tier, selected, encs, engineErrs, header, dir, time.Since(start), mode == "verify")
 }
 
@@ -710,6 +729,7 @@ func (e *Engine) report(prop, tier string, obls []*Obl, encs []*FuncEnc, engineE
 	discharged, failed, knownN, covers := 0, 0, 0, 0
 	var deadPaths []string
 	byBackend := map[string]int{}
+	cross := map[string]int{} // thorough: verdicts of the second solver family on discharged obligations
 	solverTime := 0.0
 	var samples []map[string]interface{}
 	var knownList []string
@@ -745,6 +765,9 @@ func (e *Engine) report(prop, tier string, obls []*Obl, encs []*FuncEnc, engineE
 		if ok {
 			discharged++
 			byBackend[strings.TrimSuffix(o.Solver, "(batch)")]++
+			if o.Cross != "" {
+				cross[o.Cross]++
+			}
 			if len(samples) < 6 && o.Solver != "syntactic" && o.Kind != "safety.nil" {
 				samples = append(samples, map[string]interface{}{"obligation": o.Name, "clause": o.Clause, "solver": o.Solver, "time_s": round3(o.Time), "at": o.SrcPos})
 			}
@@ -824,7 +847,7 @@ func (e *Engine) report(prop, tier string, obls []*Obl, encs []*FuncEnc, engineE
 			"coverage": map[string]interface{}{
 				"obligations": len(obls) - knownN - covers, "discharged": discharged, "vacuity_guards_checked": covers, "unreachable_paths": deadPaths, "checker_cmd": "./check " + prop + " " + tier,
 				"trusted_base": tb, "functions_under_contract": under, "functions_touched": len(funcsUnder),
-				"inlined": sortStrings(inlined), "bounded": []string{}, "by_backend": byBackend, "solver_time_s": round3(solverTime),
+				"inlined": sortStrings(inlined), "bounded": []string{}, "by_backend": byBackend, "second_solver_family": cross, "solver_time_s": round3(solverTime),
 				"known_findings": knownList, "declared_unreachable_not_verified": e.unverified, "failed": failed, "engine_errors": engineErrs, "samples": samples,
 				"not_decided": notDecided[prop],
 			},
